@@ -1041,6 +1041,11 @@ func (p *PubSub) processLoop(ctx context.Context) {
 				delete(p.peers, pid)
 				p.clearPeerFromTopicsState(pid)
 				p.rt.OnClosedOutboundStream(pid)
+			} else {
+				// A peer we have no outbound stream to (for instance because it was
+				// already in the blacklist when it connected) can still have announced
+				// topics or grafted itself into a mesh over its own stream: evict that.
+				p.onClosedIncomingStream(pid, "")
 			}
 
 		case <-ctx.Done():
